@@ -116,7 +116,7 @@ def _int_of(e):
 
 def past_point(task):
     """the (auxiliary) instant at which the library parks a task that is not scheduled: read from the
-    task's own `If(scheduled, rules, start == c /\ end == c)` assertion; from the user's point of view the
+    task's own `If(scheduled, rules, start == c and end == c)` assertion; from the user's point of view the
     placement of an unscheduled task is existential, this is only the witness"""
     sch = task._scheduled
     for f in task.get_z3_assertions():
@@ -130,7 +130,7 @@ def past_point(task):
 
 def unselected_point(task, worker):
     """the (auxiliary) instant at which the busy interval of a listed worker that is not selected is parked:
-    read from the task's own `If(selected, sync, busy_start == c /\ busy_end == c)` assertion"""
+    read from the task's own `If(selected, sync, busy_start == c and busy_end == c)` assertion"""
     bs, be = worker._busy_intervals[task]
     for f in task.get_z3_assertions():
         if z3.is_app(f) and f.decl().kind() == z3.Z3_OP_ITE:
